@@ -11,7 +11,7 @@
 use serde::{Deserialize, Serialize};
 use std::{collections::HashMap, rc::Rc};
 
-#[derive(Debug, PartialEq, Eq)]
+#[derive(Debug, Clone, PartialEq, Eq)]
 pub struct Scope {
     pub(crate) symbols: HashMap<String, Symbol>,
     pub(crate) parent: Option<Rc<Scope>>,
